@@ -36,6 +36,16 @@ func init() {
 				c.NonTrivial = true
 				emit(c)
 			}
+			// long tracks: allocation must stay proportional when the number of events grows
+			longs := []int{1500, 6000}
+			if tier == "thorough" {
+				longs = []int{1500, 6000, 25000, 100000, 400000}
+			}
+			for _, n := range longs {
+				for kind := 0; kind < 4; kind++ {
+					emit(Case{Op: fmt.Sprintf("smf.long n=%d kind=%d seed=%d", n, kind, r.Intn(1<<20)), Tags: []string{"long-track"}, NonTrivial: true})
+				}
+			}
 			for i := 0; i < nc; i++ {
 				b := genRawSMF(r)
 				emit(Case{Op: "smf.read " + hx(b), Tags: []string{"stream-c:raw"}, NonTrivial: len(b) > 14})
@@ -198,6 +208,10 @@ func isEventPrefix(c, o string) bool {
 
 func runC05(c Case, m *Model) (v Verdict) {
 	v.Counts = map[string]int{}
+	if strings.HasPrefix(c.Op, "smf.long") {
+		runLongTrack(c.Op, &v)
+		return
+	}
 	if strings.HasPrefix(c.Op, "smf.read") {
 		b := unhx(strings.Fields(c.Op)[1])
 		class := judgeRead(b, &v)
@@ -261,4 +275,77 @@ func runC05(c Case, m *Model) (v Verdict) {
 		}
 	}
 	return
+}
+
+// longTrackFile: one file with n events; kind 0 = one track of notes (running status), 1 = one track alternating
+// channel / meta / sysex events, 2 = the events spread over 16 tracks, 3 = truncated in the middle of the last event.
+func longTrackFile(n, kind int, r *Rng) []byte {
+	ntr := 1
+	if kind == 2 {
+		ntr = 16
+	}
+	var out []byte
+	out = append(out, 'M', 'T', 'h', 'd', 0, 0, 0, 6, 0, 1, 0, byte(ntr), 0x01, 0xE0)
+	for t := 0; t < ntr; t++ {
+		var body []byte
+		var run byte
+		for i := 0; i < n/ntr; i++ {
+			body = append(body, byte(r.Intn(128)))
+			switch {
+			case kind == 1 && i%3 == 1:
+				body = append(body, 0xFF, 0x01, 0x03, 'a', 'b', 'c')
+				run = 0
+			case kind == 1 && i%3 == 2:
+				body = append(body, 0xF0, 0x03, 0x01, 0x02, 0xF7)
+				run = 0
+			default:
+				st := byte(0x90 | r.Intn(2))
+				if st != run {
+					body = append(body, st)
+					run = st
+				}
+				body = append(body, byte(r.Intn(128)), byte(r.Intn(128)))
+			}
+		}
+		body = append(body, 0x00, 0xFF, 0x2F, 0x00)
+		out = append(out, 'M', 'T', 'r', 'k', byte(len(body)>>24), byte(len(body)>>16), byte(len(body)>>8), byte(len(body)))
+		out = append(out, body...)
+	}
+	if kind == 3 {
+		out = out[:len(out)-5]
+	}
+	return out
+}
+
+func allocOfRead(b []byte) (alloc uint64, panicked string) {
+	var m0, m1 runtime.MemStats
+	runtime.ReadMemStats(&m0)
+	panicked = try(func() { smf.ReadFrom(bytes.NewReader(b)) })
+	runtime.ReadMemStats(&m1)
+	return m1.TotalAlloc - m0.TotalAlloc, panicked
+}
+
+// runLongTrack: absolute bound (as for every read) and scaling: four times the events may cost at most eight times
+// the memory (proportional growth gives about four, quadratic growth sixteen).
+func runLongTrack(op string, v *Verdict) {
+	f := fields(op)
+	var n, kind, seed int
+	fmt.Sscanf(f["n"], "%d", &n)
+	fmt.Sscanf(f["kind"], "%d", &kind)
+	fmt.Sscanf(f["seed"], "%d", &seed)
+	small := longTrackFile(n/4, kind, NewRng(uint64(seed)))
+	big := longTrackFile(n, kind, NewRng(uint64(seed)))
+	a1, p1 := allocOfRead(small)
+	a2, p2 := allocOfRead(big)
+	if p1 != "" || p2 != "" {
+		v.Oracle = append(v.Oracle, "ReadFrom panicked on a long track: "+p1+p2+" :: "+op)
+		return
+	}
+	if a2 > allocBound(len(big)) {
+		v.Oracle = append(v.Oracle, fmt.Sprintf("ReadFrom allocated %d bytes for an input of %d bytes (%d events) :: %s", a2, len(big), n, op))
+	} else if a2 > 8*a1+(1<<20) {
+		v.Oracle = append(v.Oracle, fmt.Sprintf("allocation is not proportional to the input: %d events (%d bytes) cost %d bytes, %d events (%d bytes) cost %d :: %s",
+			n/4, len(small), a1, n, len(big), a2, op))
+	}
+	v.Counts = map[string]int{"reads": 2}
 }
